@@ -5,6 +5,7 @@ package core
 
 import (
 	"fmt"
+	"regexp"
 	"go/token"
 	"go/types"
 	"os"
@@ -183,6 +184,9 @@ func IsTestSupport(fn *ssa.Function) bool {
 
 // Fn resolves exactly one function by short name; nil if absent or ambiguous.
 func (w *World) Fn(name string) *ssa.Function {
+	if strings.HasPrefix(name, "@arg:") {
+		return w.closureArg(name)
+	}
 	l := w.ByName[name]
 	if len(l) == 1 {
 		return l[0]
@@ -259,3 +263,49 @@ func NamedOf(t types.Type) *types.Named {
 
 // TypeStr is the short rendering of a type.
 func TypeStr(t types.Type) string { return Short(types.TypeString(t, nil)) }
+
+// closureArg resolves the locator "@arg:<function>|<call regexp>|<arg index>" to the function literal
+// (or named function) passed as that argument — so that rows can follow `lo.Filter(xs, func…)` predicates
+// without depending on the numbering of anonymous functions.
+func (w *World) closureArg(loc string) *ssa.Function {
+	parts := strings.SplitN(strings.TrimPrefix(loc, "@arg:"), "|", 3)
+	if len(parts) != 3 {
+		return nil
+	}
+	fn := w.Fn(parts[0])
+	if fn == nil {
+		return nil
+	}
+	re, err := regexp.Compile(parts[1])
+	if err != nil {
+		return nil
+	}
+	idx := 0
+	fmt.Sscanf(parts[2], "%d", &idx)
+	var found *ssa.Function
+	n := 0
+	for _, s := range w.Sites(fn, re, true) {
+		ci, ok := s.(ssa.CallInstruction)
+		if !ok {
+			continue
+		}
+		args := CallArgs(ci.Common())
+		if idx >= len(args) {
+			continue
+		}
+		switch x := args[idx].(type) {
+		case *ssa.MakeClosure:
+			if f, ok := x.Fn.(*ssa.Function); ok {
+				found = f
+				n++
+			}
+		case *ssa.Function:
+			found = x
+			n++
+		}
+	}
+	if n != 1 {
+		return nil
+	}
+	return found
+}
